@@ -7,9 +7,10 @@ package PKGNAME
 // store is damaged (missing / truncated at a layout position / one byte altered
 // at a layout position by a symbolic non-zero difference / replaced by the same
 // shard of another part) and the part is read: the read must return exactly the
-// original bytes, and afterwards the damaged shard must again be byte-identical
-// to what PutPart wrote. With a second, different shard missing as well the read
-// must fail or still return exactly the original bytes.
+// original bytes, and where the damage makes the shard missing or unusable as a
+// whole (absent, shard header cut or altered) the shard must afterwards again be
+// byte-identical to what PutPart wrote. With a second, different shard missing
+// as well the read must fail or still return exactly the original bytes.
 //
 // Under the executor the Reed-Solomon coder is replaced by the 2+1 XOR code (any
 // two shards determine the third - the contract the store relies on; the real
@@ -111,7 +112,7 @@ func verifC17Store(shards []*verifC17Shard) partstore.PartStore {
 }
 
 var verifC17ID = *partstore.MustNewPartIdFromString("01ARZ3NDEKTSV4RRFFQ69G5FAV")
-var verifC17Sizes = []int{1, 3, 2048, 2049, 2051}
+var verifC17Sizes = []int{1, 3, 2049, 2048, 2051, 2}
 
 // layout positions inside a shard (15-byte shard header, then per stripe a
 // 48-byte frame header and the payload): every header field, both ends of the
@@ -141,9 +142,7 @@ func verifC17Same(a, b []byte) bool {
 	}
 	eq := true
 	for i := range a {
-		if a[i] != b[i] { // concrete positions compare concretely, symbolic ones fold into one condition
-			eq = verifAnd(eq, a[i] == b[i])
-		}
+		eq = verifAnd(eq, a[i] == b[i]) // one condition, no fork per byte
 	}
 	return eq
 }
@@ -152,38 +151,75 @@ func VerifC17OneFault() {
 	shards := []*verifC17Shard{{}, {}, {}}
 	st := verifC17Store(shards)
 	ctx := context.Background()
-	n := verifC17Sizes[verifPick("size", 0, len(verifC17Sizes)-1)]
+	n := verifC17Sizes[verifPick("size", 0, verifParam("sizes", 3)-1)]
 	body := verifC17Body("b", n)
 	verifAssert(st.PutPart(ctx, nil, verifC17ID, bytes.NewReader(body)) == nil, "C17: PutPart failed")
 	orig := [][]byte{append([]byte(nil), shards[0].data...), append([]byte(nil), shards[1].data...), append([]byte(nil), shards[2].data...)}
 	firstPayload := (min(n, 2048) + 1) / 2
 
 	f := verifPick("faulty-shard", 0, 2)
-	kind := verifPick("fault", 0, 3)
+	kind := verifPick("fault", verifParam("minkind", 0), verifParam("maxkind", 3))
 	pos := verifC17Positions(len(orig[f]), firstPayload)
+	// detectedAtOpen: the shard is missing or its shard header is unusable, so the
+	// read is a healing read that has to rewrite it. Damage further inside is
+	// detected frame by frame; the statement asks for the exact bytes then, not for
+	// a repair.
+	detectedAtOpen := false
+	// lengthField: the altered byte is in a frame header's data-length field
+	lengthField := false
 	switch kind {
 	case 0: // missing
 		shards[f].present, shards[f].data = false, nil
+		detectedAtOpen = true
 	case 1: // truncated
 		cut := pos[verifPick("cut-at", 0, len(pos)-1)]
 		shards[f].data = append([]byte(nil), orig[f][:cut]...)
+		detectedAtOpen = cut < 15
 	case 2: // one byte altered
 		at := pos[verifPick("alter-at", 0, len(pos)-1)]
 		delta := verifByte("difference")
 		verifAssume(delta != 0)
+		if rel := (at - 15) % (48 + firstPayload); at >= 15 && rel >= 8 && rel < 16 {
+			// the two length fields of a frame header size an allocation and a slice:
+			// two representative differences instead of all 255
+			verifAssume(delta == 0x01 || delta == 0x80)
+			lengthField = rel < 12
+		}
 		shards[f].data = append([]byte(nil), orig[f]...)
 		shards[f].data[at] ^= delta
+		detectedAtOpen = at < 15
 	case 3: // the same shard of another part of the same size
 		other := []*verifC17Shard{{}, {}, {}}
-		obody := verifC17Body("o", n)
+		obody := make([]byte, n)
+		for i := range obody {
+			obody[i] = byte(i*7 + 1)
+		}
 		verifAssert(verifC17Store(other).PutPart(ctx, nil, verifC17ID, bytes.NewReader(obody)) == nil, "C17: PutPart failed")
-		verifAssume(!verifC17Same(other[f].data, orig[f]))
 		shards[f].data = other[f].data
 	}
-	second := verifPick("second-missing", 0, 2) // 0: none; 1, 2: the next / next but one shard is missing as well
-	if second > 0 {
+	// more faults: 0 none; 1, 2: the next / next but one shard is missing as well;
+	// 3: both other shards carry the same damage at the same place (cut or altered)
+	second := verifPick("second-missing", 0, verifParam("second", 3))
+	if second == 1 || second == 2 {
 		o := (f + second) % 3
 		shards[o].present, shards[o].data = false, nil
+	}
+	if second == 3 {
+		verifAssume(kind == 1 || kind == 2)
+		verifCover("all-shards-damaged")
+		for _, o := range []int{(f + 1) % 3, (f + 2) % 3} {
+			if len(shards[f].data) < len(orig[f]) {
+				shards[o].data = append([]byte(nil), orig[o][:min(len(shards[f].data), len(orig[o]))]...)
+				continue
+			}
+			d := append([]byte(nil), orig[o]...)
+			for i := range d {
+				if i < len(orig[f]) && shards[f].data[i] != orig[f][i] { // the altered position (concrete index)
+					d[i] ^= shards[f].data[i] ^ orig[f][i]
+				}
+			}
+			shards[o].data = d
+		}
 	}
 
 	rc, err := st.GetPart(ctx, nil, verifC17ID)
@@ -192,24 +228,24 @@ func VerifC17OneFault() {
 		got, err = io.ReadAll(rc)
 		rc.Close()
 	}
+	if verifKnown("C17-frame-data-length-not-authenticated", kind == 2 && lengthField) || verifKnown("C17-shard-not-bound-to-part", kind == 3) {
+		return
+	}
 	if second > 0 {
 		verifCover("two-faults")
-		if verifKnown("C17-frame-length-field-not-authenticated", kind == 2) || verifKnown("C17-shard-not-bound-to-part", kind == 3) {
-			return
-		}
 		verifAssert(err != nil || verifC17Same(got, body), "C17: with more faults than parity shards the read returned different bytes instead of failing")
 		return
 	}
 	verifCover("one-fault")
-	if verifKnown("C17-frame-length-field-not-authenticated", kind == 2) || verifKnown("C17-shard-not-bound-to-part", kind == 3) {
-		return
-	}
 	verifAssert(err == nil, "C17: a read with one faulty shard failed")
 	verifAssert(verifC17Same(got, body), "C17: a read with one faulty shard returned other bytes than were written")
-	verifAssert(shards[f].present && verifC17Same(shards[f].data, orig[f]), "C17: the healing read did not restore the faulty shard")
+	if detectedAtOpen {
+		verifCover("healed")
+		verifAssert(shards[f].present && verifC17Same(shards[f].data, orig[f]), "C17: the healing read did not restore the missing shard")
+	}
 	for i := range shards {
 		if i != f {
-			verifAssert(verifC17Same(shards[i].data, orig[i]), "C17: the healing read changed a healthy shard")
+			verifAssert(verifC17Same(shards[i].data, orig[i]), "C17: the read changed a healthy shard")
 		}
 	}
 }
